@@ -7,7 +7,7 @@ from . import common as C
 EVENT_NAMES = {1: 'storage got >1 packet', 2: 'sink ring wrapped', 3: 'filter ring wrapped', 4: 'trailing incomplete window',
                10: 'client consumed part of a multi-frame region', 11: 'client saw frames', 12: 'client held a region across stop/abort',
                40: 'camera fault injected', 41: 'storage fault injected', 42: 'multi-frame packet at storage', 43: 'device closed while started', 45: 'camera changed its shape during the run', 46: 'second open of a device in use refused', 47: 'device open refused',
-               20: 'writer slept on a full ring', 21: 'abort arrived while the source was blocked', 22: 'frame delivered after trigger'}
+               20: 'writer slept on a full ring', 21: 'abort arrived while the source was blocked', 22: 'frame delivered after trigger', 24: 're-configured while the streamer was parked'}
 
 
 def cfg(scenario, bound, **params):
@@ -86,6 +86,8 @@ def run_cfgs(rep, exe, cfgs, budget_s, label, par=1):
         for v in d['violations']:
             clause = v['clause']
             fp = clause if clause[:1] == 'C' and clause[3:4] == ':' else f"{rep.pid}:{c['scenario']}:{clause}"
+            if fp.startswith('C17:camera-buffer') or fp.startswith('C17:caller-buffer'):
+                fp += ':' + c['scenario']               # which scenario: c17r is the re-configure-while-rendering race (known finding), c17t never re-configures while rendering
             if c['scenario'] == 'c08' and 'prog' in c['params']:
                 fp += f":prog={c['params']['prog']}"   # a C08 violation is identified by the client program that produces it"
             pstr = ' '.join(f'--param {k}={x}' for k, x in c['params'].items())
